@@ -292,10 +292,16 @@ Definition r_struct_end (p : pk) : rm unit := fun s =>
   | _ => Ok (tt, s)
   end.
 
+(* pending_read_bool_field_identifier = None *)
+Definition clear_pfield (s : rst) : rst :=
+  set_rc s (mkR (r_last (rc s)) (r_stack (rc s)) (r_pbool (rc s)) false).
+
 (* read_field_begin: (type, id) -- id None only for the compact Stop *)
 Definition r_field_begin (p : pk) : rm (ttype * option Z) :=
   match p with
   | PCompact => fun s =>
+      (* a new field begins: pending_read_bool_field_identifier = None (fix F-09g) *)
+      let s := clear_pfield s in
       let* (b, s) := r_byte s in
       let delta := b / 16 in
       let lo := b mod 16 in
